@@ -101,7 +101,7 @@ PROPS = {
     "C13": {"suites": [("frozen", 1.0), ("frozenmis", 0.5)], "theorems": ["RModel.BSet.canon_ext", "RModel.Facts.frozenCookie_spec"],
             "modules": DEFAULT_MODULES + [FACTS],
             "owns": {"frz", "frzsmall", "frzwfail", "fview", "fdec", "fspec", "fchk", "fgc", "wf", "dig", "eq", "card", "toarr"}},
-    "C14": {"suites": [("hist", 1.0), ("alg", 0.7), ("xform", 0.5), ("thresh", 0.5), ("sizeb", 1.0)],
+    "C14": {"suites": [("hist", 1.0), ("alg", 0.7), ("xform", 0.5), ("thresh", 0.5), ("sizeb", 1.0), ("agg", 0.5)],
             "theorems": ["RModel.Impl.readme_bound", "RModel.Impl.bound_function", "RModel.BSet.canon_ext"] + F_SERIAL,
             "modules": DEFAULT_MODULES + [FACTS, "RProofs.Properties.C14"], "owns": {"size"}},
     "C15": {"suites": [("nbr", 1.0), ("kernq", 0.3)], "theorems": L1_NBR, "owns": {"nv", "pv", "nav", "pav", "kern"}},
